@@ -213,6 +213,9 @@ def step (s : State) (args : List String) : State × String :=
     match parseNat? a, parseNat? b, parseDenom? d, parseInt? amt with
     | some a, some b, some d, some amt => out s (Paloma.TokenFactory.step s.st (.send a b d amt))
     | _, _, _, _ => (s, "bad-op")
+  | ["reimport"] =>
+    -- genesis export, wipe, import of the token factory: nothing the property speaks about may change
+    out s (Paloma.TokenFactory.reimport s.st, .ok)
   | ["grant", c, g] =>
     match parseNat? c, parseNat? g with
     | some c, some g => out s (Paloma.TokenFactory.step s.st (.grant c g))
